@@ -15,7 +15,7 @@ import time
 from harness.sim import Sim
 from harness import monitors
 
-PROPERTIES = ["C02", "C19", "C18", "C16"]
+PROPERTIES = ["C02", "C19", "C18", "C16", "C12"]
 ORDER = 30
 
 
